@@ -134,6 +134,10 @@ class Connector:
                                       description,
                                       self, noise,
                                       outbound_prologue, inbound_prologue)
+        # track every connection (inbound ones too), so it is closed when a
+        # winner is selected or when we are stopped
+        self._pending_connections.add(p)
+        p.when_disconnected().addCallback(self._pending_connections.discard)
         return p
 
     @m.state(initial=True)
@@ -259,6 +263,11 @@ class Connector:
     connected.upon(add_candidate, enter=connected, outputs=[])
     connected.upon(accept, enter=connected, outputs=[])
     connected.upon(stop, enter=stopped, outputs=[stop_everything])
+
+    # a connection can finish negotiating (or its eventual-send accept() can
+    # fire) after we have been stopped: it has already been hung up on
+    stopped.upon(add_candidate, enter=stopped, outputs=[])
+    stopped.upon(accept, enter=stopped, outputs=[])
 
     # from Manager: start, got_hints, stop
     # maybe add_candidate, accept
